@@ -472,9 +472,12 @@ class The(ResultQuantifier[T]):
     """
 
     def evaluate(self) -> TypingUnion[Iterable[T], T, UnificationDict]:
-        result = self._evaluate_()
-        result = self._process_result_(result)
-        self._reset_cache_()
+        try:
+            result = self._evaluate_()
+            result = self._process_result_(result)
+        finally:
+            # also when no/multiple solutions were found, otherwise the next evaluation sees stale state.
+            self._reset_cache_()
         return result
 
     def _evaluate__(self, sources: Optional[Dict[int, HashedValue]] = None, yield_when_false: bool = False) -> Iterable[Dict[int, HashedValue]]:
@@ -517,11 +520,16 @@ class An(ResultQuantifier[T]):
         self._node_.wrap_subtree = True
 
     def evaluate(self) -> Iterable[TypingUnion[T, Dict[TypingUnion[T, SymbolicExpression[T]], T]]]:
-        with symbolic_mode(mode=None):
-            results = self._evaluate__()
-            assert not in_symbolic_mode()
-            yield from map(self._process_result_, results)
-        self._reset_cache_()
+        results = self._evaluate__()
+        try:
+            with symbolic_mode(mode=None):
+                assert not in_symbolic_mode()
+                yield from map(self._process_result_, results)
+        finally:
+            # also when the iteration is abandoned or aborted by an exception, otherwise the next evaluation sees
+            # stale state. The operand generators restore state when they exit, so finalize them first.
+            results.close()
+            self._reset_cache_()
 
     def _evaluate__(self, sources: Optional[Dict[int, HashedValue]] = None, yield_when_false: bool = False) -> Iterable[T]:
         sources = sources or {}
@@ -1489,6 +1497,8 @@ class Comparator(BinaryOperator):
                     values[self._id_] = HashedValue(res)
                     self.update_cache(values)
                     yield values
+        if is_caching_enabled():
+            self._cache_.mark_covered(sources)
 
     def apply_operation(self, operand_values: Dict[int, HashedValue]):
         return self.operation(operand_values[self.left._id_].value, operand_values[self.right._id_].value)
@@ -1577,6 +1587,8 @@ class AND(LogicalOperator):
                         self._is_false_ = self.right._is_false_
                         self.update_cache(right_value, self.right_cache)
                         yield output
+                    if is_caching_enabled():
+                        self.right_cache.mark_covered(left_value)
                 finally:
                     self.right._eval_parent_ = right_prev
         finally:
@@ -1630,6 +1642,7 @@ class Union(OR):
         if is_caching_enabled() and self._cache_.check(sources):
             yield from self.yield_final_output_from_cache(sources)
             return
+        initial_sources = copy(sources)
 
         # constrain left values by available sources
         left_prev = self.left._eval_parent_
@@ -1653,6 +1666,8 @@ class Union(OR):
             self.left._eval_parent_ = left_prev
         self.left_evaluated = False
         yield from self.evaluate_right(sources)
+        if is_caching_enabled():
+            self._cache_.mark_covered(initial_sources)
 
     def evaluate_right(self, sources: Optional[Dict[int, HashedValue]]) -> Iterable[Dict[int, HashedValue]]:
         right_values = self.right._evaluate__(sources, yield_when_false=self._yield_when_false_)
@@ -1716,6 +1731,8 @@ class ElseIf(OR):
                                     continue
                             self.update_cache(right_value, self.right_cache)
                             yield output
+                        if is_caching_enabled():
+                            self.right_cache.mark_covered(left_value)
                     finally:
                         self.right._eval_parent_ = right_prev
                 else:
